@@ -14,13 +14,13 @@ Hypotheses that appear, and why (each with a `_witness` showing it is needed):
     start / end + 1 is the loop's border sentinel −1 before or after the shift);
   * `SafePos k x` — a present polyA / polyT position is not moved onto the sentinel −1;
   * `MovedSafeA/T k read x` — nor is the position `shift_polya` / `shift_polyt` recomputes from it;
-  * `FarOriginA/T k p iso` — `detect_reference_exons_beyond_polya / _before_polyt` compute `abs(exon_end − pos)` for BOTH
-    polyA positions even when one is the sentinel −1, i.e. the distance to coordinate −1 enters a `min`
-    (`detectBeyondPolya_sentinel_arith_witness`: a defect of the real code, visible within ≈ max_missed_exon_len + delta
-    bases of the chromosome start); needed only when exactly one of the two positions is present;
-  * everything bundled once, on the INPUTS, in `NoSentinel k ms p blocks pa`; `Genomic k ms p blocks pa` (non-negative
-    coordinates before and after the shift, exons beyond the reach of the thresholds, sorted read blocks) implies it
-    (`noSentinel_of_genomic`), which gives `shift_equivariant_assignRead_genomic` without any mention of the sentinel.
+  * since fix a2ae069 (an absent position is infinitely far, `minInf (distOrInf ..)`) `detect_reference_exons_*` need no
+    distance-from-origin and no presence hypothesis (`detect_both_absent`): `detectBeyondPolya_sentinel_arith_witness` / `detectBeforePolyt_sentinel_arith_witness` are regression witnesses
+    about the old code (`detectBeyondPolyaBuggy`, `detectBeforePolytBuggy`), `detect_sentinel_arith_regression` /
+    `verifyReadEnds_sentinel_arith_regression` show the fixed model on the same inputs;
+  * everything bundled once, on the INPUTS, in `NoSentinel k ms blocks pa`; `Genomic k ms blocks pa` (non-negative
+    coordinates before and after the shift, well-formed exons, sorted read blocks) implies it (`noSentinel_of_genomic`),
+    which gives `shift_equivariant_assignRead_genomic` without any mention of the sentinel.
 -/
 import IsoVerif.Model.Assign
 import IsoVerif.Model.C11SymAssign
@@ -170,74 +170,76 @@ theorem shift_equivariant_checkIfClose (k : Int) (p : Params) (stop ext int : In
 
 example : isPosEvent .correct_polya_site_right = true ∧ isPosEvent .correct_polya_site_left = true := ⟨rfl, rfl⟩
 
+/-- `dist_to_polya` of `detect_reference_exons_*`: the distance to the nearer PRESENT position (fix a2ae069) -/
+theorem shift_equivariant_tailDist (k a ext int : Int) (hE : SafePos k ext) (hI : SafePos k int) :
+    minInf (distOrInf (a + k) (shiftPos k ext)) (distOrInf (a + k) (shiftPos k int)) = minInf (distOrInf a ext) (distOrInf a int) :=
+  tailDist_shift k a ext int hE hI
+
 theorem shift_equivariant_detectBeyondPolya (k : Int) (p : Params) (iso : List Iv) (ext int : Int) (evs : List Event)
-    (hE : SafePos k ext) (hI : SafePos k int) (hP : ext ≠ -1 ∨ int ≠ -1)
-    (hEnd : ∀ e, iso.getLast? = some e → e.2 ≠ -1)
-    (hD : (ext ≠ -1 ∧ int ≠ -1) ∨ FarOriginA k p iso) :
+    (hE : SafePos k ext) (hI : SafePos k int) (hEnd : ∀ e, iso.getLast? = some e → e.2 ≠ -1) :
     detectBeyondPolya p (shiftL k iso) (shiftPos k ext) (shiftPos k int) (shiftEvents k evs)
       = (detectBeyondPolya p iso ext int evs).map (outShift k) :=
-  detectBeyondPolya_shift k p iso ext int evs hE hI hP hEnd hD
+  detectBeyondPolya_shift k p iso ext int evs hE hI hEnd
 
 theorem shift_equivariant_detectBeforePolyt (k : Int) (p : Params) (iso : List Iv) (ext int : Int) (evs : List Event)
-    (hE : SafePos k ext) (hI : SafePos k int) (hP : ext ≠ -1 ∨ int ≠ -1)
-    (hEnd : ∀ e, iso.head? = some e → e.1 ≠ -1)
-    (hD : (ext ≠ -1 ∧ int ≠ -1) ∨ FarOriginT k p iso) :
+    (hE : SafePos k ext) (hI : SafePos k int) (hEnd : ∀ e, iso.head? = some e → e.1 ≠ -1) :
     detectBeforePolyt p (shiftL k iso) (shiftPos k ext) (shiftPos k int) (shiftEvents k evs)
       = (detectBeforePolyt p iso ext int evs).map (outShift k) :=
-  detectBeforePolyt_shift k p iso ext int evs hE hI hP hEnd hD
+  detectBeforePolyt_shift k p iso ext int evs hE hI hEnd
 
-/-- DEFECT of the code BEFORE the fix of the sentinel distance (kept as `detectBeyondPolyaBuggy`; the fixed
-    `detectBeyondPolya` treats an absent position as infinitely far): with the internal polyA position absent (−1) the
-    function took `min(abs(30 − 80), abs(30 − (−1))) = 31 ≤ max_fake_terminal_exon_len` and declared the terminal exon
-    misaligned; 1000 bases further down the same configuration gave `min(50, 1031) = 50` and nothing was reported.
-    (statement moved to the `…Buggy` definition by the C01 builder when /repo was fixed; C11 owner: see report) -/
+/-- with both positions absent nothing is detected, wherever the gene lies (the loop then compares exon starts with the
+    sentinel itself, but after fix a2ae069 the distance is infinite; the old code was not equivariant there either) -/
+theorem detect_both_absent (p : Params) (iso : List Iv) (evs : List Event) :
+    detectBeyondPolya p iso (-1) (-1) evs = some (evs, -1, -1) ∧ detectBeforePolyt p iso (-1) (-1) evs = some (evs, -1, -1) :=
+  ⟨detectBeyondPolya_absent p iso evs, detectBeforePolyt_absent p iso evs⟩
+
+/-- REGRESSION (code before fix a2ae069, kept as `detectBeyondPolyaBuggy`): with the internal polyA position absent (−1)
+    the old code still took `min(abs(30 − 80), abs(30 − (−1))) = 31 ≤ max_fake_terminal_exon_len` and declared the terminal
+    exon misaligned; 1000 bases further down the same configuration gave `min(50, 1031) = 50` and nothing was reported -/
 theorem detectBeyondPolya_sentinel_arith_witness :
     detectBeyondPolyaBuggy exParams (shiftL 1000 [(10, 30), (200, 210)]) (shiftPos 1000 80) (shiftPos 1000 (-1))
         (shiftEvents 1000 [])
       ≠ (detectBeyondPolyaBuggy exParams [(10, 30), (200, 210)] 80 (-1) []).map (outShift 1000) := by
   decide
 
-/-- … and the repaired function is equivariant on that input -/
-theorem detectBeyondPolya_sentinel_arith_fixed :
-    detectBeyondPolya exParams (shiftL 1000 [(10, 30), (200, 210)]) (shiftPos 1000 80) (shiftPos 1000 (-1)) (shiftEvents 1000 [])
-      = (detectBeyondPolya exParams [(10, 30), (200, 210)] 80 (-1) []).map (outShift 1000) := by
+/-- … and its polyT twin: `min(abs(30 − 100), abs(30 − (−1))) = 31` -/
+theorem detectBeforePolyt_sentinel_arith_witness :
+    detectBeforePolytBuggy exParams (shiftL 1000 [(1, 3), (30, 200)]) (shiftPos 1000 100) (shiftPos 1000 (-1))
+        (shiftEvents 1000 [])
+      ≠ (detectBeforePolytBuggy exParams [(1, 3), (30, 200)] 100 (-1) []).map (outShift 1000) := by
   decide
 
-/-- the same configuration far from the origin is equivariant (hypotheses of `shift_equivariant_detectBeyondPolya`) -/
-example : FarOriginA 1000 exParams [(5010, 5030), (5200, 5210)] ∧
-    detectBeyondPolya exParams (shiftL 1000 [(5010, 5030), (5200, 5210)]) (shiftPos 1000 5080) (shiftPos 1000 (-1)) []
-      = some ([], 6080, -1) := by
-  constructor
-  · intro e he
-    simp only [List.mem_cons, List.mem_nil_iff, or_false] at he
-    rcases he with rfl | rfl <;> decide
-  · decide
+/-- the FIXED functions are equivariant on those same inputs (instances of the two theorems above; no terminal exon is
+    declared misaligned, at either place) -/
+theorem detect_sentinel_arith_regression :
+    detectBeyondPolya exParams (shiftL 1000 [(10, 30), (200, 210)]) (shiftPos 1000 80) (shiftPos 1000 (-1)) (shiftEvents 1000 [])
+      = (detectBeyondPolya exParams [(10, 30), (200, 210)] 80 (-1) []).map (outShift 1000) ∧
+    detectBeyondPolya exParams [(10, 30), (200, 210)] 80 (-1) [] = some ([], 80, -1) ∧
+    detectBeforePolyt exParams (shiftL 1000 [(1, 3), (30, 200)]) (shiftPos 1000 100) (shiftPos 1000 (-1)) (shiftEvents 1000 [])
+      = (detectBeforePolyt exParams [(1, 3), (30, 200)] 100 (-1) []).map (outShift 1000) ∧
+    detectBeforePolyt exParams [(1, 3), (30, 200)] 100 (-1) [] = some ([], 100, -1) := by
+  decide
+
+/-- the hypotheses of `shift_equivariant_detectBeyondPolya` are met by that input -/
+example : SafePos 1000 80 ∧ SafePos 1000 (-1) ∧
+    (∀ e, [((10 : Int), (30 : Int)), (200, 210)].getLast? = some e → e.2 ≠ -1) := by
+  refine ⟨fun _ => by decide, fun h => absurd rfl h, ?_⟩
+  intro e he
+  simp at he
+  subst he
+  decide
 
 theorem shift_equivariant_verifyPolya (k : Int) (p : Params) (iso read : List Iv) (pa : PolyA) (evs0 : List Event)
-    (hP : pa.extA ≠ -1 ∨ pa.intA ≠ -1) (h : PolyaSafe k p iso read pa.extA pa.intA) :
+    (hP : pa.extA ≠ -1 ∨ pa.intA ≠ -1) (h : PolyaSafe k iso read pa.extA pa.intA) :
     verifyPolya p (shiftL k iso) (shiftL k read) (shiftPolyA k pa) (shiftEvents k evs0)
-      = (verifyPolya p iso read pa evs0).map (shiftEvents k) := by
-  have hD : (pa.extA ≠ -1 ∧ pa.intA ≠ -1) ∨ FarOriginA k p iso := by
-    rcases h.far with hf | hf
-    · left
-      rcases hP with h1 | h1
-      · exact ⟨h1, fun c => h1 (hf.mpr c)⟩
-      · exact ⟨fun c => h1 (hf.mp c), h1⟩
-    · exact Or.inr hf
-  exact verifyPolya_shift k p iso read pa evs0 h.safeExt h.safeInt hP h.isoEnd h.movedExt h.movedInt hD
+      = (verifyPolya p iso read pa evs0).map (shiftEvents k) :=
+  verifyPolya_shift k p iso read pa evs0 h.safeExt h.safeInt hP h.isoEnd h.movedExt h.movedInt
 
 theorem shift_equivariant_verifyPolyt (k : Int) (p : Params) (iso read : List Iv) (pa : PolyA) (evs0 : List Event)
-    (hP : pa.extT ≠ -1 ∨ pa.intT ≠ -1) (h : PolytSafe k p iso read pa.extT pa.intT) :
+    (hP : pa.extT ≠ -1 ∨ pa.intT ≠ -1) (h : PolytSafe k iso read pa.extT pa.intT) :
     verifyPolyt p (shiftL k iso) (shiftL k read) (shiftPolyA k pa) (shiftEvents k evs0)
-      = (verifyPolyt p iso read pa evs0).map (shiftEvents k) := by
-  have hD : (pa.extT ≠ -1 ∧ pa.intT ≠ -1) ∨ FarOriginT k p iso := by
-    rcases h.far with hf | hf
-    · left
-      rcases hP with h1 | h1
-      · exact ⟨h1, fun c => h1 (hf.mpr c)⟩
-      · exact ⟨fun c => h1 (hf.mp c), h1⟩
-    · exact Or.inr hf
-  exact verifyPolyt_shift k p iso read pa evs0 h.safeExt h.safeInt hP h.isoStart h.movedExt h.movedInt hD
+      = (verifyPolyt p iso read pa evs0).map (shiftEvents k) :=
+  verifyPolyt_shift k p iso read pa evs0 h.safeExt h.safeInt hP h.isoStart h.movedExt h.movedInt
 
 /-- a real (external) polyA position shifted ONTO the sentinel is read as "no polyA": the close external site is lost
     and the distant internal one is reported as an alternative site -/
@@ -254,22 +256,25 @@ theorem shift_equivariant_checkInternal (k pos : Int) (evs : List Event) (incomp
 
 /-- `PolyAVerifier.verify_read_ends`: same events, polyA-site positions shifted -/
 theorem shift_equivariant_verifyReadEnds (k : Int) (p : Params) (rp : ReadProf) (I : IsoInfo) (evs : List Event)
-    (h : EndsSafe k p rp I) :
+    (h : EndsSafe k rp I) :
     verifyReadEnds p (shiftReadProf k rp) (shiftIsoInfo k I) (shiftEvents k evs)
       = (verifyReadEnds p rp I evs).map (shiftEvents k) :=
   verifyReadEnds_shift k p rp I evs h
 
-/-- the former witness `verifyReadEnds_sentinel_arith_witness` (the defect of `detectBeyondPolyaBuggy` seen through
-    `verify_read_ends`, relation `S.verify_read_ends`, k = 1000): since the fix of the sentinel distance in /repo the model
-    AND the code are equivariant on this input although `FarOriginA` fails — the `FarOriginA/T` part of `EndsSafe` is no
-    longer needed (restated by the C01 builder; C11 owner: see report) -/
-theorem verifyReadEnds_sentinel_arith_fixed :
+/-- REGRESSION of fix a2ae069 seen through `verify_read_ends` (the input on which the old code "corrected" the read end to
+    the isoform end near the origin and reported an alternative polyA site 1000 bases further down; replayed on the real
+    code by the harness, relation `S.verify_read_ends`, k = 1000): the relation now holds, an alternative site at both places -/
+theorem verifyReadEnds_sentinel_arith_regression :
     ((Gene.fromModels ([⟨[(10, 30), (200, 210)], .plus⟩].map (shiftIsoform 1000))).bind (fun g =>
         (constructProfiles g exParams (shiftL 1000 [(10, 30)]) (shiftPolyA 1000 ⟨80, -1, -1, -1⟩)).bind (fun rp =>
           g.isos[0]?.bind (fun I => verifyReadEnds exParams rp I []))))
       = ((Gene.fromModels [⟨[(10, 30), (200, 210)], .plus⟩]).bind (fun g =>
         (constructProfiles g exParams [(10, 30)] ⟨80, -1, -1, -1⟩).bind (fun rp =>
-          g.isos[0]?.bind (fun I => verifyReadEnds exParams rp I [])))).map (shiftEvents 1000) := by
+          g.isos[0]?.bind (fun I => verifyReadEnds exParams rp I [])))).map (shiftEvents 1000) ∧
+    ((Gene.fromModels [⟨[(10, 30), (200, 210)], .plus⟩]).bind (fun g =>
+        (constructProfiles g exParams [(10, 30)] ⟨80, -1, -1, -1⟩).bind (fun rp =>
+          g.isos[0]?.bind (fun I => verifyReadEnds exParams rp I []))))
+      = some [{ ty := .alternative_polya_site_right, info := 80 }] := by
   decide +kernel
 
 /-- `check_read_ends` -/
@@ -280,7 +285,7 @@ theorem shift_equivariant_checkReadEnds (k : Int) (g : Gene) (p : Params) (rp : 
   checkReadEnds_shift k g p rp ms ty
 
 theorem shift_equivariant_verifyEndsForAssignment (k : Int) (p : Params) (rp : ReadProf) (ms : List (IsoInfo × IsoMatch))
-    (h : ∀ Im ∈ ms, EndsSafe k p rp Im.1) :
+    (h : ∀ Im ∈ ms, EndsSafe k rp Im.1) :
     verifyEndsForAssignment p (shiftReadProf k rp) (ms.map (shPairM k))
       = (verifyEndsForAssignment p rp ms).map (fun r => (r.1.map (shPairM k), r.2)) :=
   verifyEndsForAssignment_shift k p rp ms h
@@ -303,7 +308,7 @@ theorem shift_equivariant_consistentIsoforms (k : Int) (g : Gene) (p : Params) (
   consistentIsoforms_shift k g p rp
 
 theorem shift_equivariant_matchConsistent (k : Int) (g : Gene) (p : Params) (rp : ReadProf)
-    (h : ∀ I ∈ g.isos, EndsSafe k p rp I) :
+    (h : ∀ I ∈ g.isos, EndsSafe k rp I) :
     matchConsistent (shiftGene k g) p (shiftReadProf k rp) = (matchConsistent g p rp).map (Option.map (shiftAssignment k)) :=
   matchConsistent_shift k g p rp h
 
@@ -313,7 +318,7 @@ theorem shift_equivariant_selectSimilar (k : Int) (g : Gene) (p : Params) (rp : 
 
 /-- `detect_inconsistensies` with the comparator's events of the shifted input -/
 theorem shift_equivariant_detectInconsistencies (k : Int) (g : Gene) (p : Params) (rp : ReadProf)
-    (cj : Nat → Option (List Event)) (l : List IsoInfo) (h : ∀ I ∈ l, EndsSafe k p rp I) :
+    (cj : Nat → Option (List Event)) (l : List IsoInfo) (h : ∀ I ∈ l, EndsSafe k rp I) :
     detectInconsistencies (shiftGene k g) p (shiftReadProf k rp) (shiftCj k cj) (l.map (shiftIsoInfo k))
       = (detectInconsistencies g p rp cj l).map (List.map (shPairE k)) :=
   detectInconsistencies_shift k g p rp cj l h
@@ -333,7 +338,7 @@ theorem shift_equivariant_selectBestAmongInconsistent (k : Int) (p : Params) (rp
   selectBestAmongInconsistent_shift k p rp rm
 
 theorem shift_equivariant_matchInconsistent (k : Int) (g : Gene) (p : Params) (rp : ReadProf)
-    (cj : Nat → Option (List Event)) (h : ∀ I ∈ g.isos, EndsSafe k p rp I) :
+    (cj : Nat → Option (List Event)) (h : ∀ I ∈ g.isos, EndsSafe k rp I) :
     matchInconsistent (shiftGene k g) p (shiftReadProf k rp) (shiftCj k cj)
       = (matchInconsistent g p rp cj).map (shiftAssignment k) :=
   matchInconsistent_shift k g p rp cj h
@@ -352,7 +357,7 @@ theorem shift_equivariant_noninformativeAssignment (k : Int) (g : Gene) (rp : Re
 /-- `assign_to_isoform` on a shifted gene model and shifted read profiles: same type, path, isoforms, classifications,
     event types; positions shifted -/
 theorem shift_equivariant_assignToIsoform (k : Int) (g : Gene) (p : Params) (rp : ReadProf)
-    (cj : Nat → Option (List Event)) (h : ∀ I ∈ g.isos, EndsSafe k p rp I) :
+    (cj : Nat → Option (List Event)) (h : ∀ I ∈ g.isos, EndsSafe k rp I) :
     assignToIsoform (shiftGene k g) p (shiftReadProf k rp) (shiftCj k cj)
       = (assignToIsoform g p rp cj).map (fun r => (shiftAssignment k r.1, r.2)) :=
   assignToIsoform_shift k g p rp cj h
@@ -360,27 +365,26 @@ theorem shift_equivariant_assignToIsoform (k : Int) (g : Gene) (p : Params) (rp 
 /-- END TO END: annotation, alignment blocks and polyA positions shifted by `k` (comparator events of the shifted input)
     give the shifted assignment by the same path — errors included (`none ↦ none`) -/
 theorem shift_equivariant_assignRead (k : Int) (ms : List Isoform) (p : Params) (blocks : List Iv) (pa : PolyA)
-    (cj : Nat → Option (List Event)) (h : NoSentinel k ms p blocks pa) :
+    (cj : Nat → Option (List Event)) (h : NoSentinel k ms blocks pa) :
     assignRead (ms.map (shiftIsoform k)) p (shiftL k blocks) (shiftPolyA k pa) (shiftCj k cj)
       = (assignRead ms p blocks pa cj).map (fun r => (shiftAssignment k r.1, r.2)) :=
   assignRead_shift k ms p blocks pa cj h
 
 /-- the same on the natural domain, without any mention of the sentinel: annotation and read at non-negative coordinates
-    before and after the shift (`Genomic`: well-formed exons beyond the reach max(max_fake_terminal_exon_len,
-    max_missed_exon_len + delta) of the terminal-exon thresholds, sorted disjoint read blocks, polyA / polyT positions
-    absent or non-negative) -/
+    before and after the shift (`Genomic`: well-formed exons, sorted disjoint read blocks, polyA / polyT positions absent
+    or non-negative) -/
 theorem shift_equivariant_assignRead_genomic (k : Int) (ms : List Isoform) (p : Params) (blocks : List Iv) (pa : PolyA)
-    (cj : Nat → Option (List Event)) (h : Genomic k ms p blocks pa) :
+    (cj : Nat → Option (List Event)) (h : Genomic k ms blocks pa) :
     assignRead (ms.map (shiftIsoform k)) p (shiftL k blocks) (shiftPolyA k pa) (shiftCj k cj)
       = (assignRead ms p blocks pa cj).map (fun r => (shiftAssignment k r.1, r.2)) :=
-  assignRead_shift k ms p blocks pa cj (noSentinel_of_genomic k ms p blocks pa h)
+  assignRead_shift k ms p blocks pa cj (noSentinel_of_genomic k ms blocks pa h)
 
 /-! ### non-vacuity of the end-to-end theorem: a read of isoform 0 with a polyA tail, shifted by 255 -/
 
 def exBlocks : List Iv := [(1020, 1203), (1297, 1400), (1500, 1600)]
 def exPolyA : PolyA := ⟨1601, -1, -1, -1⟩
 
-example : Genomic 255 exAnnotation exParams exBlocks exPolyA := by
+example : Genomic 255 exAnnotation exBlocks exPolyA := by
   refine ⟨?_, ?_, by simp [exBlocks], ?_⟩
   · intro m hm e he
     simp only [exAnnotation, List.mem_cons, List.mem_nil_iff, or_false] at hm
@@ -394,8 +398,8 @@ example : Genomic 255 exAnnotation exParams exBlocks exPolyA := by
     rcases hx with rfl | rfl | rfl | rfl <;> decide
 
 /-- … hence the hypotheses of the read-end theorems (`PolyaSafe`, i.e. `EndsSafe` of a '+' isoform) hold for isoform 0 -/
-example : PolyaSafe 255 exParams [(1000, 1200), (1300, 1400), (1500, 1600)] exBlocks exPolyA.extA exPolyA.intA := by
-  have hg : Genomic 255 exAnnotation exParams exBlocks exPolyA := by
+example : PolyaSafe 255 [(1000, 1200), (1300, 1400), (1500, 1600)] exBlocks exPolyA.extA exPolyA.intA := by
+  have hg : Genomic 255 exAnnotation exBlocks exPolyA := by
     refine ⟨?_, ?_, by simp [exBlocks], ?_⟩
     · intro m hm e he
       simp only [exAnnotation, List.mem_cons, List.mem_nil_iff, or_false] at hm
@@ -407,35 +411,27 @@ example : PolyaSafe 255 exParams [(1000, 1200), (1300, 1400), (1500, 1600)] exBl
     · intro x hx
       simp only [exPolyA, List.mem_cons, List.mem_nil_iff, or_false] at hx
       rcases hx with rfl | rfl | rfl | rfl <;> decide
-  exact (noSentinel_of_genomic _ _ _ _ _ hg).plus ⟨[(1000, 1200), (1300, 1400), (1500, 1600)], .plus⟩
+  exact (noSentinel_of_genomic _ _ _ _ hg).plus ⟨[(1000, 1200), (1300, 1400), (1500, 1600)], .plus⟩
     (by simp [exAnnotation]) rfl
 
-example : NoSentinel 255 exAnnotation exParams exBlocks exPolyA := by
+example : NoSentinel 255 exAnnotation exBlocks exPolyA := by
   refine ⟨?_, fun _ => by decide, fun h => absurd rfl h, ?_, ?_⟩
   · intro m hm e he
     simp only [exAnnotation, List.mem_cons, List.mem_nil_iff, or_false] at hm
     rcases hm with rfl | rfl | rfl <;> simp only [List.mem_cons, List.mem_nil_iff, or_false] at he <;>
       rcases he with rfl | rfl | rfl <;> decide
   · intro m hm hs
-    have hfar : FarOriginA 255 exParams m.exons := by
-      simp only [exAnnotation, List.mem_cons, List.mem_nil_iff, or_false] at hm
-      rcases hm with rfl | rfl | rfl <;> intro e he <;> simp only [List.mem_cons, List.mem_nil_iff, or_false] at he <;>
-        rcases he with rfl | rfl | rfl <;> decide
     have hend : ∀ e, m.exons.getLast? = some e → e.2 ≠ -1 ∧ e.2 + 255 ≠ -1 := by
       simp only [exAnnotation, List.mem_cons, List.mem_nil_iff, or_false] at hm
       rcases hm with rfl | rfl | rfl <;> intro e he <;> simp at he <;> subst he <;> decide
-    refine ⟨fun _ => by decide, fun h => absurd rfl h, hend, ?_, movedSafeA_absent _ _, Or.inr hfar⟩
+    refine ⟨fun _ => by decide, fun h => absurd rfl h, hend, ?_, movedSafeA_absent _ _⟩
     apply movedSafeA_of_le
     decide
   · intro m hm hs
-    have hfar : FarOriginT 255 exParams m.exons := by
-      simp only [exAnnotation, List.mem_cons, List.mem_nil_iff, or_false] at hm
-      rcases hm with rfl | rfl | rfl <;> intro e he <;> simp only [List.mem_cons, List.mem_nil_iff, or_false] at he <;>
-        rcases he with rfl | rfl | rfl <;> decide
     have hstart : ∀ e, m.exons.head? = some e → e.1 ≠ -1 ∧ e.1 + 255 ≠ -1 := by
       simp only [exAnnotation, List.mem_cons, List.mem_nil_iff, or_false] at hm
       rcases hm with rfl | rfl | rfl <;> intro e he <;> simp at he <;> subst he <;> decide
-    exact ⟨fun h => absurd rfl h, fun h => absurd rfl h, hstart, movedSafeT_absent _ _, movedSafeT_absent _ _, Or.inl Iff.rfl⟩
+    exact ⟨fun h => absurd rfl h, fun h => absurd rfl h, hstart, movedSafeT_absent _ _, movedSafeT_absent _ _⟩
 
 def view (r : Option (Assignment × Path)) : Option (ReadAssignmentType × Path) := r.map (fun r => (r.1.ty, r.2))
 def viewEvents (r : Option (Assignment × Path)) : Option (List (Option Nat × List (MatchEventSubtype × Int))) :=
